@@ -16,11 +16,11 @@ Definition okstop (s : stop) : Prop :=
   end.
 Definition good {A} (g : gen A) : Prop := okstop (snd g).
 
-Definition is_coords (v : rnode) : bool := match v with RCoords _ _ _ _ _ => true | _ => false end.
-Definition coords_or_list (v : rnode) : bool := is_coords v || is_pylist v.
+Definition is_coords (v : rval) : bool := match v with RCoords _ _ _ _ _ => true | _ => false end.
+Definition coords_or_list (v : rval) : bool := is_coords v || is_pylist v.
 (* what a segment handler may yield / what the required driver yields *)
-Definition segres (g : gen rnode) : Prop := good g /\ Forall (fun x => coords_or_list x = true) (fst g).
-Definition reqres (g : gen rnode) : Prop := good g /\ Forall (fun x => is_coords x = true) (fst g).
+Definition segres (g : gen rval) : Prop := good g /\ Forall (fun x => coords_or_list x = true) (fst g).
+Definition reqres (g : gen rval) : Prop := good g /\ Forall (fun x => is_coords x = true) (fst g).
 
 Lemma reqres_segres g : reqres g -> segres g.
 Proof.
@@ -40,13 +40,13 @@ Lemma reqres_gone x : is_coords x = true -> reqres (gone x).
 Proof. intros H; split; [exact I | repeat constructor; exact H]. Qed.
 Lemma segres_gone x : coords_or_list x = true -> segres (gone x).
 Proof. intros H; split; [exact I | repeat constructor; exact H]. Qed.
-Lemma reqres_coords nd p r t a : reqres (gone (coords nd p r t a)).
+Lemma reqres_coords nd p r t a : reqres (gone (ncoords nd p r t a)).
 Proof. apply reqres_gone; reflexivity. Qed.
-Lemma segres_coords nd p r t a : segres (gone (coords nd p r t a)).
+Lemma segres_coords nd p r t a : segres (gone (ncoords nd p r t a)).
 Proof. apply segres_gone; reflexivity. Qed.
 
 (* a generic "stream property": stop is fine and all items satisfy Q *)
-Definition sres (Q : rnode -> bool) (g : gen rnode) : Prop :=
+Definition sres (Q : rval -> bool) (g : gen rval) : Prop :=
   good g /\ Forall (fun x => Q x = true) (fst g).
 
 Lemma sres_gapp Q a b : sres Q a -> (forall u, sres Q (b u)) -> sres Q (gapp a b).
@@ -102,11 +102,11 @@ Proof.
   destruct s; cbn in *; auto; try contradiction; split; auto; constructor.
 Qed.
 
-Lemma sres_weaken (Q R : rnode -> bool) g :
+Lemma sres_weaken (Q R : rval -> bool) g :
   (forall x, Q x = true -> R x = true) -> sres Q g -> sres R g.
 Proof. intros H [H1 H2]; split; auto. eapply Forall_impl; [|exact H2]. exact H. Qed.
 
-Lemma sres_coords Q nd p r t a : Q (coords nd p r t a) = true -> sres Q (gone (coords nd p r t a)).
+Lemma sres_coords Q nd p r t a : Q (ncoords nd p r t a) = true -> sres Q (gone (ncoords nd p r t a)).
 Proof. intros H; split; [exact I | repeat constructor; exact H]. Qed.
 Lemma sres_gone_q Q x : Q x = true -> sres Q (gone x).
 Proof. intros H; split; [exact I | repeat constructor; exact H]. Qed.
@@ -169,6 +169,11 @@ Proof.
   destruct r; eauto; exfalso; eapply Hr; reflexivity.
 Qed.
 
+Lemma typed_haystack_ok h : exists w, typed_haystack lit h = Ok w.
+Proof.
+  unfold typed_haystack. destruct (typed_value_ok (hay_pyval h)) as [w ->]. cbn. destruct h; eauto.
+Qed.
+
 Lemma py_lt_num a b : is_num_inst a = true -> is_num_inst b = true -> exists r, py_lt a b = Ok r.
 Proof.
   unfold is_num_inst, py_lt. destruct a, b; cbn; intros; try discriminate; eauto.
@@ -189,12 +194,12 @@ Proof.
     destruct (is_num_inst tn) eqn:E2; eauto. apply H; auto. unfold is_num_inst; rewrite E3. apply orb_true_r.
 Qed.
 
-Lemma search_matches_ok m needle h : ok_or_ype (search_matches lit re_search m needle h).
+Lemma search_matches_ok m needle h : ok_or_ype (search_matches_h lit re_search m needle h).
 Proof.
-  unfold search_matches.
-  destruct (typed_value_ok h) as [th Hth].
+  unfold search_matches_h, search_matches_g.
+  destruct (typed_haystack_ok h) as [th Hth].
   destruct (typed_value_ok (PStr needle)) as [tn Htn].
-  rewrite Hth, Htn. unfold bind at 1 2.
+  rewrite Hth, Htn. unfold bind at 1 2. cbn [needle_text py_str bind].
   destruct m.
   - left; eauto.
   - left; eauto.
